@@ -198,7 +198,14 @@ fn build(pr: &Params) -> Case {
     let w: Option<Vec<f64>> = match pr.wsel {
         0 => None,
         1 => Some((0..n).map(|_| 1.0 + rng.below(4) as f64).collect()),
-        _ => Some((0..n).map(|_| rng.range(0.5, 2.0)).collect()),
+        2 => Some((0..n).map(|_| rng.range(0.5, 2.0)).collect()),
+        _ => {
+            // real weights rescaled to mean one: they sum to n up to rounding (often an ulp below or above it), so the
+            // number of observations is the same under every convention (row count or total weight)
+            let w: Vec<f64> = (0..n).map(|_| rng.range(0.5, 2.0)).collect();
+            let s: f64 = w.iter().sum();
+            Some(w.iter().map(|v| v * n as f64 / s).collect())
+        }
     };
     let off: Option<Vec<f64>> = match pr.osel {
         0 => None,
@@ -240,7 +247,7 @@ fn build(pr: &Params) -> Case {
     let cls = format!(
         "{}/w={}/off={}/a={}/tol={}",
         DCLASS[pr.dclass as usize],
-        ["none", "int", "real"][pr.wsel as usize],
+        ["none", "int", "real", "mean-one"][pr.wsel as usize],
         ["none", "unif"][pr.osel as usize],
         pr.alpha,
         if pr.tol <= 1e-9 { "tight" } else { "loose" }
@@ -255,7 +262,7 @@ fn strat(spec: Spec) -> impl Strategy<Value = Case> {
         n_st,
         spec.pmin..=6usize,
         0u8..4,
-        0u8..3,
+        0u8..4,
         0u8..2,
         0u8..12,
         (0u8..10, 0.0f64..1.0),
@@ -815,9 +822,56 @@ pub fn check_deviance(ctx: &mut Ctx, c: &Case) -> R {
     )
 }
 
+/// Weighted fits whose weights sum to the number of rows (within 1e-9 relative): the residual degrees of freedom are
+/// n − p under every convention, so dispersion() must be deviance/(n − p) for the weighted or the unweighted deviance, at
+/// the returned coefficients or the library's previous iterate. (For other weights the statement defines no estimator.)
+fn check_dispersion_weighted(ctx: &mut Ctx, c: &Case) -> R {
+    let w = c.w.as_ref().unwrap();
+    let sw: f64 = w.iter().sum();
+    if !((sw - c.n as f64).abs() <= 1e-9 * c.n as f64) || !gr::has_dispersion(c.fam) {
+        return Ok(());
+    }
+    let sub = format!("dispersion/{}", fam_name(c.fam));
+    let f = match prelude(ctx, &sub, "dispersion", c)? {
+        Some(f) => f,
+        None => return Ok(()),
+    };
+    ctx.label(&sub, "weights-sum-to-n");
+    let sig = format!("C06/{}", sub);
+    let got = match catch(|| f.glm.dispersion().map_err(|e| e.to_string())) {
+        Ok(Ok(d)) => d,
+        Ok(Err(e)) => return fail(sig, format!("{}: dispersion() is Err({}) after a successful fit", describe(c), e)),
+        Err(m) => return fail(format!("{}/panic", sig), format!("{}: dispersion() panicked: {}", describe(c), m)),
+    };
+    let dof = (c.n - c.p) as f64;
+    let near = |u: f64, wd: f64| (got - u / dof).abs() <= 10.0 * dev_tight(u) / dof || (got - wd / dof).abs() <= 10.0 * dev_tight(wd) / dof;
+    if near(f.at.dev_u, f.at.dev_w) {
+        return Ok(());
+    }
+    let prev = match prev_iterate(c, &f.coef) {
+        Some(b) => b,
+        None => {
+            ctx.label(&sub, "weights-sum-to-n:undecided(previous iterate not recoverable)");
+            return Ok(());
+        }
+    };
+    let atp = problem(c).at(&prev);
+    if near(atp.dev_u, atp.dev_w) {
+        ctx.label(&sub, "weights-sum-to-n:accepted-one-step-behind");
+        return Ok(());
+    }
+    fail(
+        sig,
+        format!(
+            "{}: weights sum to n = {} (sum {:e}), dispersion() = {:e} is neither deviance/(n-p) for the unweighted ({:e}) nor the weighted ({:e}) deviance with n-p = {}, at the returned coefficients or the previous iterate ({:e}, {:e})",
+            describe(c), c.n, sw, got, f.at.dev_u, f.at.dev_w, dof, atp.dev_u, atp.dev_w
+        ),
+    )
+}
+
 pub fn check_dispersion(ctx: &mut Ctx, c: &Case) -> R {
     if c.w.is_some() {
-        return Ok(());
+        return check_dispersion_weighted(ctx, c);
     }
     let sub = format!("dispersion/{}", fam_name(c.fam));
     let f = match prelude(ctx, &sub, "dispersion", c)? {
@@ -1265,7 +1319,7 @@ pub fn check_nonconv(ctx: &mut Ctx, c: &Case) -> R {
 pub fn run(ctx: &mut Ctx) {
     ctx.rule = "family x n in 20..=500 (50% <= 60) x p in 1..=6 (intercept + standardised Gaussian / polynomial-of-a-standardised-variable / 0-1 indicator / mixed columns); \
 true coefficients |b_j| <= 1.5 with slopes rescaled so that the linear predictor stays in [-3,3]; responses from the harness's own simulators (splitmix64 uniforms, inverse-CDF normal and Poisson, \
-Bernoulli by comparison, integer-shape Gamma as a sum of exponentials, d*Poisson(mu/d) for over-dispersed counts); weights none / integer 1..4 / real [0.5,2]; offsets none / uniform[-1,1]; \
+Bernoulli by comparison, integer-shape Gamma as a sum of exponentials, d*Poisson(mu/d) for over-dispersed counts); weights none / integer 1..4 / real [0.5,2] / real rescaled to mean one; offsets none / uniform[-1,1]; \
 alpha in {0,0.1,1,10}; tolerance log-uniform [1e-12,1e-9] (70%) or [1e-8,1e-5] (30%); max_iter 100 (1..=3 for the non-convergence clause). A case is non-trivial when fit returns Ok and p >= 2 \
 (an Ok fit always took at least two scoring iterations); distinct by the hash of all data; weighted / offset / effectively penalised (alpha > 0 and |slopes| > 0.1) Ok-fits are counted separately as counted:* labels"
         .into();
@@ -1274,7 +1328,7 @@ alpha in {0,0.1,1,10}; tolerance log-uniform [1e-12,1e-9] (70%) or [1e-8,1e-5] (
         "x is row-major n x p with the intercept column supplied by the caller; weights multiply the log-likelihood terms".into(),
         "a case is inside the quantifier only if the harness's own damped Fisher scoring finds a finite (penalised) MLE with |b| <= 12 and a numerically full-rank information matrix; other cases are skipped and counted".into(),
         "the oracle is evaluated only when fit returns Ok; Err results are counted (fraction must stay below 20 %)".into(),
-        "dispersion is checked for unweighted fits only; the deviance of a weighted fit may be the weighted or the unweighted sum of unit deviances (either reading accepted); covariance for alpha = 0 only (the statement defines neither a weighted dispersion estimate nor a penalised information)".into(),
+        "dispersion is checked for unweighted fits and for weighted fits whose weights sum to the number of rows (same degrees of freedom under every convention); the deviance of a weighted fit may be the weighted or the unweighted sum of unit deviances (either reading accepted); covariance for alpha = 0 only (the statement defines neither a weighted dispersion estimate nor a penalised information)".into(),
         "tolerated: deviance / information evaluated one scoring step behind the returned coefficients (tolerances are functions of the convergence tolerance)".into(),
     ];
     if !gr::self_test() {
@@ -1310,6 +1364,9 @@ alpha in {0,0.1,1,10}; tolerance log-uniform [1e-12,1e-9] (70%) or [1e-8,1e-5] (
         // weighted fits (either reading of the deviance accepted); a third of these draw no weights
         let sw = Spec::new(Some(fam), AlphaSet::Any);
         ctx.run_prop_par(&format!("deviance/{}", fam_name(fam)), n_dev / 2, th, || strat(sw), check_deviance);
+        if gr::has_dispersion(fam) {
+            ctx.run_prop_par(&format!("dispersion/{}", fam_name(fam)), n_disp / 2, th, || strat(sw), check_dispersion);
+        }
     }
     // (v): α = 0
     let n_se = ctx.scale(1500, 48000);
